@@ -186,6 +186,7 @@ func (p *StreamPool) getConnection(k key, end bool, ts time.Time, tcp *layers.TC
 	p.mu.RLock()
 	conn, half, rev := p.getHalf(k)
 	p.mu.RUnlock()
+	verifYield("getConnection:looked-up")
 	if end || conn != nil {
 		return conn, half, rev
 	}
@@ -193,6 +194,7 @@ func (p *StreamPool) getConnection(k key, end bool, ts time.Time, tcp *layers.TC
 	if s == nil {
 		return nil, nil, nil
 	}
+	verifYield("getConnection:created-stream")
 	p.mu.Lock()
 	defer p.mu.Unlock()
 	conn, half, rev = p.newConnection(k, s, ts)
